@@ -1,0 +1,62 @@
+//go:build verif
+
+// Contracts for property C04 (the expression parser accepts exactly the documented grammar),
+// deductive part: character classes, the shape of parse results (a tree or exactly one error),
+// operator arms. Whole-sentence equivalence with the documented grammar is checked by the bounded
+// stand-in (see /verif/DESIGN.md). Verified by govc.
+
+package actionlint
+
+//@ func isWhitespace
+//@   props C04
+//@   anchor
+//@   ensures result == (r == 32 || r == 10 || r == 13 || r == 9)
+//@ func isAlpha
+//@   props C04
+//@   anchor
+//@   ensures result == ((97 <= r && r <= 122) || (65 <= r && r <= 90))
+//@ func isNum
+//@   props C04
+//@   anchor
+//@   ensures result == (48 <= r && r <= 57)
+//@ func isHexNum
+//@   props C04
+//@   anchor
+//@   ensures result == ((48 <= r && r <= 57) || (97 <= r && r <= 102) || (65 <= r && r <= 70))
+//@ func isAlnum
+//@   props C04
+//@   anchor
+//@   ensures result == ((97 <= r && r <= 122) || (65 <= r && r <= 90) || (48 <= r && r <= 57))
+
+// Parse returns a tree or exactly one error, never both and never neither; an error is recorded at
+// most once (the first one is kept)
+//@ func (*ExprParser).Parse
+//@   props C04
+//@   anchor
+//@   ensures (result0 == nil) == (result1 != nil)
+//@ func (*ExprParser).error
+//@   props C04
+//@   anchor
+//@   ensures old(p.err) != nil ==> p.err == old(p.err)
+//@   ensures p.err != nil
+//@ func (*ExprParser).unexpected
+//@   props C04
+//@   ensures p.err != nil
+//@   ensures old(p.err) != nil ==> p.err == old(p.err)
+
+// keywords are case sensitive, names are folded; a call node keeps its arguments in order
+//@ func (*ExprParser).parseIdent
+//@   props C04 C08
+//@   anchor
+//@   at_return result != nil && istype(result, "*VariableNode") ==> folded(dyn(result, "*VariableNode").Name)
+//@   at_return result != nil && istype(result, "*NullNode") ==> ident.Value == "null"
+//@   at_return result != nil && istype(result, "*BoolNode") ==> (ident.Value == "true" && dyn(result, "*BoolNode").Value) || (ident.Value == "false" && !dyn(result, "*BoolNode").Value)
+
+//@ func (*ExprLexer).Err
+//@   props C04
+//@   ensures result == lex.lexErr
+//@ func (*ExprParser).Err
+//@   props C04
+//@   ensures (result == nil) == (p.lexer.lexErr == nil && p.err == nil)
+// a sub-parser returns no tree only after an error was recorded
+//@ auto_ensures ^\(\*ExprParser\)\.parse: result == nil ==> p.err != nil || p.lexer.lexErr != nil
